@@ -69,6 +69,9 @@ func (c *Ctx) otherContextsM(n *Node, sp bool, M uint64) {
 		k.Fields = [][2]uint64{{0, 0}}
 	}
 	c.runC07(k)
+	// several asserts: each one is a condition of its own
+	k2 := &c07case{Kind: "assert", Cfg: cfg, Src: ";assert 1\n;assert " + e + "\n;assert 2\ndat 0, 0\n", WantErr: k.WantErr, Fields: k.Fields}
+	c.runC07(k2)
 	if !ok {
 		// a zero divisor in a FOR count or ORG argument is an error too
 		c.runC07(&c07case{Kind: "for", Cfg: cfg, Src: "i for " + e + "\ndat i, 0\nrof\n", WantErr: true})
